@@ -32,6 +32,32 @@ def gen_block(seed, i):
     return bytes(gen_byte(seed, i, j) for j in range(512))
 
 
+def crc16_spec(data):
+    """CRC-16/XMODEM by bit-serial polynomial division (x^16 + x^12 + x^5 + 1, zero start) - the specification, not the crate's table"""
+    r = 0
+    for d in data:
+        for k in range(8):
+            top = ((r >> 15) & 1) ^ ((d >> (7 - k)) & 1)
+            r = (r << 1) & 0xFFFF
+            if top:
+                r ^= 0x1021
+    return r
+
+
+def special_crc_seeds():
+    """write seeds whose block 0 (gen_block(seed, 0)) has a CRC-16 with a zero HIGH byte, a zero LOW byte, and both zero
+    bytes absent - found by search; (seed, crc) for each class that exists below the bound"""
+    out = {}
+    for seed in range(1, 4000):
+        c = crc16_spec(gen_block(seed, 0))
+        cls = "hi0" if (c >> 8) == 0 and (c & 255) else ("lo0" if (c & 255) == 0 and (c >> 8) else None)
+        if cls and cls not in out:
+            out[cls] = (seed, c)
+        if len(out) == 2:
+            break
+    return out
+
+
 def crc7(data):
     crc = 0
     for d in data:
